@@ -14,7 +14,7 @@
    proved (fold-free queries: `..._partial`); for queries with folds the implementation is covered by
    the run-time oracle of ./check C13 (every row of the real engine against the real declared types). *)
 From Coq Require Import Permutation.
-From TF Require Import Values Exec Sem Sim SimComp SimOut SimTop Run SimGen SimFull WfCheck SimFinal WfIR WfIRProofs TypedFull.
+From TF Require Import Values Exec Sem Sim SimComp SimOut SimTop Run SimGen SimFull WfCheck SimFinal WfIR WfIRProofs TypedFull WfRefine.
 Local Open Scope string_scope.
 
 (* ---- exactly the declared names ---- *)
@@ -91,6 +91,20 @@ Theorem C13_engine_rows_typed_all :
       forall n t v, In (n, (t, v)) (ix_outputs ix) -> ty_valid t (row_get row n) = Ok true.
 Proof. exact engine_rows_typed_all. Qed.
 Print Assumptions C13_engine_rows_typed_all.
+
+(* ... and with the structural hypotheses DERIVED from wf_ir (WfRefine.wf_ir_refine_hyps) instead of
+   evaluated: for every well-formed query; `no_saturation` (the one non-structural condition) = no
+   fold-count limit that compute_fold truncates to reaches usize::MAX *)
+Theorem C13_engine_rows_typed_wf :
+  forall re g args S q ix q' rows,
+    ty_indep g -> conforms S g -> wf_ir q = true -> outputs_typed S (rq_comp q) ->
+    index_query q = Ok (inr ix) -> lower_query q = Ok q' -> no_saturation args (q_comp q') = true ->
+    interpret re g args q' = Ok rows ->
+    forall row, In row rows ->
+      (forall n, lookup_str n row <> None <-> In n (map fst (ix_outputs ix))) /\
+      forall n t v, In (n, (t, v)) (ix_outputs ix) -> ty_valid t (row_get row n) = Ok true.
+Proof. exact engine_rows_typed_wf. Qed.
+Print Assumptions C13_engine_rows_typed_wf.
 
 (* ---- the three clauses about the declared types ---- *)
 (* every declared output is justified by one of the three rules of `declares` *)
